@@ -77,11 +77,24 @@ func (db *DB) VerifCollectGarbage(capacity uint64) (collected uint64, done bool,
 	old := db.capacity
 	db.capacity = capacity
 	db.batchMu.Unlock()
-	defer func() {
+	restore := func() {
 		db.batchMu.Lock()
 		db.capacity = old
 		db.batchMu.Unlock()
-	}()
+	}
+	defer restore()
+	// The run has read its target once its candidates are chosen. Put the real
+	// capacity back before the caller's interleaving hook runs, so that store
+	// operations issued from that hook cannot wake the background worker for a
+	// second, concurrent run (which cannot happen in production, where the one
+	// worker is the only caller of collectGarbage).
+	if user := testHookGCIteratorDone; user != nil {
+		testHookGCIteratorDone = func() {
+			restore()
+			user()
+		}
+		defer func() { testHookGCIteratorDone = user }()
+	}
 	return db.collectGarbage()
 }
 
